@@ -44,7 +44,6 @@ def make_pkg(extra_env=None, extra_builtins=None, record=None):
         'tqdm': tq,
         'mtscomp': mts,
         'scipy': scipy, 'scipy.linalg': scipy_linalg, 'scipy.io': scipy_io,
-        'csv': vfs.fake_csv,
     }
     if extra_env:
         env.update(extra_env)
